@@ -6,6 +6,7 @@ from fractions import Fraction
 
 import arithcheck
 import core
+import e2e
 import gen
 import renderoracle
 from common import run_harness, run_model, qenc, Reader
@@ -119,6 +120,15 @@ def check_cases(res, ctx, cases, label):
     enc = [core.to_ints(c, 1) for c in cases]
     mod_raw = run_model([e[0] for e in enc])
     stats = ctx["stats"]
+    # end-to-end pass: the cells of the same CSV text through the extracted reader + bridge
+    # (coq/Model/Bridge.v) into the ledger model; must equal the implementation and the
+    # Python-encoded model run
+    e_diffs, e_st, _ = e2e.run_pass(hc, impl_raw, [e2e.init_pairs(c) for c in cases],
+                                    [core.parse_model(mo) for mo in mod_raw])
+    stats.update(e_st)
+    for k, d in e_diffs:
+        stats["correspondence_diffs"] += 1
+        ctx["corr_diffs"].append((cases[k], hc[k], d))
     spec_jobs = []
     for k, (c, e, io, mo) in enumerate(zip(cases, enc, impl_raw, mod_raw)):
         m = core.parse_model(mo)
@@ -245,6 +255,7 @@ def run(res, ctx):
                                   "deviations_above_1e-9_inside_class": st["known-large-magnitude-deviation"]},
         "arith_validation": av,
         "traces_validated_against_impl": st["evaluations"],
+        "e2e_evaluations": st["e2e-evaluations"],
     })
     res.assumptions += [
         "rounding half of C01 (|dec - exact| <= 1e-9 for any length) is measured on every generated history, not proved: see DESIGN.md C01",
